@@ -10,11 +10,33 @@ HVALS = [b"", b"\xc3\xa9", b"1", b"text/plain; charset=utf-8", b"a=b; Path=/", b
 NASTY = [b"\r\n", b"0\r\n\r\n", b"HTTP/1.1 200 OK\r\n\r\n", b"\n", b"\r", b"5\r\nhello\r\n", b"Content-Length: 3\r\n", b"\x00\xff"]
 
 
+def app_err(app):
+    """None | ("replaces", err) — the error is raised before any body byte left, it becomes the response | ("cuts", k) — raised after the head
+    went out: the response ends after the k items yielded so far"""
+    if len(app) <= 6 or app[6] is None:
+        return None
+    k = app[6][0]
+    if k < 0:
+        return ("replaces", app[6])
+    if any(app[5][1]) or any(app[3][:k]):
+        return ("cuts", k)
+    return ("replaces", app[6])
+
+
 def expected_body(app):
     status, headers, clen, pieces, retval = app[:5]
     written = app[5][1] if len(app) > 5 else []
+    e = app_err(app)
+    if e and e[0] == "cuts":
+        return b"".join(written) + b"".join(pieces[:e[1]])
     full = b"".join(written) + b"".join(pieces) + (retval or b"")
     return full
+
+
+TE_NAMES = [b"Transfer-Encoding", b"transfer-encoding", b"TRANSFER-ENCODING", b"Transfer-encoding"]
+TE_VALUES = [b"chunked", b"chunked", b"Chunked", b"CHUNKED"]
+ERR_STATUS = [400, 401, 404, 404, 409, 418, 500, 503, 599, 777]
+ERR_TEXT = [b"", b"", b"Not here", b"Le probl\xe8me", b"two\nlines", b"x" * 40, b"a: b", b"0"]
 
 
 class C18(core.Check):
@@ -32,15 +54,20 @@ class C18(core.Check):
                   "Content-Length or chunked body — recovers, in request order and with nothing left over, exactly status line, header list and body of every response "
                   "of well-formed app output, under the guard that each response is delimited), self_delimiting_partial (every response is delimited unless the request "
                   "is HTTP/1.0 and the app declares no Content-Length = F29, proved to fail on a witness (f29_not_delimited) and for EVERY such response (undelimited_never_parses); recorded as C18-K1). "
+                  "Framing given by the application: app_listed_chunked_is_chunked (an app that lists Transfer-Encoding: chunked itself, any case, is chunked and terminated like any other). "
+                  "Applications that raise HTTPError: error_length_is_the_servers (for every error, whatever headers it carries, the response has exactly one Content-Length and it is the "
+                  "rendered text's), error_response_as_app + error_response_parses_back (the error response parses back to its status, headers and text, delimited), "
+                  "error_after_head_ends_response, serveX_no_error. "
                   "The model is tied to serving.py by a seeded differential run (raw bytes, closed flag, app call count) under random fragmentation of the request "
                   "stream, service-cycle gaps and send quotas; default Server header and version string are re-extracted from the code on every run.")
     level_note = ("Trusted: Lean kernel + propext/Classical.choice/Quot.sound; the hand-written model's faithfulness is carried by the sampled correspondence; "
-                  "request parsing/fragmentation independence is C13's; app behaviours outside the quantifier (app raises, app sets its own Transfer-Encoding/Content-Length "
+                  "request parsing/fragmentation independence is C13's; app behaviours outside the quantifier (app raises something other than httping.HTTPError, app lists a Content-Length or a coding other than chunked "
                   "through the header list, output shorter than its declared length, 1xx/204/304, HEAD) are not generated.")
     quick_n = 700
     thorough_n = 12000
     rule = ("case = (requests on one connection [(version 1.0|1.1, Connection none|keep-alive|close|Keep-Alive, body length|none)], app behaviour per request "
-            "[status, header list, Content-Length none|exact|smaller than output|0, body pieces incl. empty and CRLF/chunk/status-line look-alikes, generator return value], "
+            "[status, header list (sometimes with the app's own Transfer-Encoding: chunked), Content-Length none|exact|smaller than output|0, body pieces incl. empty and CRLF/chunk/status-line look-alikes, generator return value, "
+            "start_response restarts / write() callable, HTTPError raised at once | after k items with status, reason, title, detail, fault, headers incl. a foreign Content-Length], "
             "fragmentation cut points of the request stream + service cycles between fragments, send quota per cycle). "
             "non-trivial = at least 2 responses on the connection or a body of >= 2 non-empty pieces; distinct by request line")
     trusted_base = ["correspondence harness/props/C18.py: compiled model driver vs hio.core.http.serving.Server over a scripted servant (harness/areas/httpflow.py)",
@@ -48,7 +75,7 @@ class C18(core.Check):
                     "oracle parser: CPython http.client.HTTPResponse",
                     "Date header frozen by patching httping.httpDate1123 in the harness process"]
     assumptions = ["request parsing is fragmentation independent (property C13) — the model takes parsed requests",
-                   "the app's output is at least as long as a Content-Length it declares; the app does not raise"]
+                   "the app's output is at least as long as a Content-Length it declares; an app that raises raises httping.HTTPError (the documented way to fail)"]
 
     def extract(self):
         return xhf.extract()
@@ -71,11 +98,24 @@ class C18(core.Check):
             ([(1, 3, None), (1, 0, None)], [E, G], ([5], 3), None),
             # found by the generator (fixed, dee4961): persisted flag of the request in progress closed the connection early
             ([(1, 1, None), (0, 0, 100), (0, 0, None)], [E, E, E], ([81, 113, 134, 152, 176], 1), None),
+            # virtual time: HTTP/1.0 keep-alive and HTTP/1.1 connections that are idle for longer than the server's timeout, a stalling app, a POST whose
+            # body arrives complete and alone followed by another request in a later pass
+            ([(0, 1, None), (0, 1, 7), (0, 1, None)], [A, B, A], ("paced", [7, 60, 0], 0), None),
+            ([(0, 3, None), (0, 1, None)], [(b"200 OK", [], 6, [b"ab", b"", b"", b"", b"", b"", b"", b"cd", b"", b"", b"", b"", b"", b"", b"ef"], None), A], ("paced", [0, 7], 1), None),
+            ([(1, 0, 5), (1, 0, None), (1, 2, None)], [A, (b"200 OK", [], None, [b"x"] + [b""] * 8 + [b"y"], None), B], ("paced", [60, 7, 0], 2), None),
             # error restart before anything is written: the first call declares a Content-Length, the replacement does not (and vice versa); write() callable
             ([(1, 0, None), (1, 0, None)], [(b"500 Internal Server Error", [(b"X-E", b"1")], None, [b"replacement body, longer than five"], None, ([(b"200 OK", [], 5)], [])), A], ([], 1), None),
             ([(1, 0, None), (1, 2, None)], [(b"200 OK", [], 3, [b"abcdef"], None, ([(b"404 Not Found", [(b"X-Old", b"o")], None), (200, [], 1000)], [b"w1", b"w2"])), B], ([], 1), None),
             ([(0, 1, None), (0, 1, None)], [(b"200 OK", [], 4, [b"cd"], None, ([], [b"ab"])), A], ([], 1), 3),
             ([(0, 3, None), (1, 0, None)], [B, (b"200 OK", [], 6, [b"ab", b"", b"cdef", b"gh"], None)], ([], 1), 3),
+            # the app lists Transfer-Encoding: chunked itself (name / value in any case), pipelined
+            ([(1, 0, None), (1, 0, None)], [(b"200 OK", [(b"Transfer-Encoding", b"chunked")], None, [b"ab", b"cd"], None), A], ([], 1), None),
+            ([(1, 0, None), (1, 0, None)], [(b"200 OK", [(b"X-A", b"1"), (b"transfer-encoding", b"Chunked")], None, [b"ab", b"", b"cd"], b"t"), B], ([], 1), None),
+            # the app raises HTTPError: at once, before the first non-empty item (the error carries a Content-Length that is not the text's), after the head
+            ([(1, 0, None), (1, 0, None)], [(b"200 OK", [], None, [b"ab"], None, ([], []), (-1, 404, b"", b"Not here", b"d", None, [])), A], ([], 1), None),
+            ([(1, 0, None), (1, 0, None)], [(b"200 OK", [(b"X-A", b"1")], 5, [b"", b"abcde"], None, ([], []), (1, 503, b"Busy", b"T", b"", 7, [(b"Retry-After", b"7"), (b"Content-Length", b"100")])), A], ([], 1), None),
+            ([(0, 1, None), (0, 1, None)], [(b"200 OK", [], None, [b""], None, ([], []), (1, 418, b"", b"", b"", 0, [(b"content-length", b"1"), (b"Content-Type", b"text/html")])), B], ([], 1), None),
+            ([(1, 0, None), (1, 0, None)], [(b"200 OK", [], None, [b"ab", b"cd"], b"tail", ([], []), (1, 500, b"", b"T", b"d", None, [(b"Content-Length", b"3")])), A], ([], 1), None),
         ]
 
     def exhaustive(self, tier):
@@ -133,7 +173,54 @@ class C18(core.Check):
             return (status, hs, clen, pieces, retval, (restarts, written))
         return (status, hs, clen, pieces, retval)
 
+    def _err(self, rng, app):
+        """the app raises httping.HTTPError somewhere: at once, after k items of its iterator; the error carries its own status, texts, fault code and
+        headers — among them framing headers (a Content-Length that is not the length of the rendered text)"""
+        status, hs, clen, pieces, retval = app[:5]
+        rw = app[5] if len(app) > 5 else ([], [])
+        k = rng.choice([-1, 0, 0, len(pieces)] + list(range(len(pieces) + 1)))
+        ehs, seen = [], set()
+        for _ in range(rng.choice([0, 0, 1, 2, 3])):
+            nm = rng.choice([b"X-Err", b"content-type", b"Content-Type", b"WWW-Authenticate", b"Retry-After", b"x-e2"])
+            if nm.lower() not in seen:
+                seen.add(nm.lower())
+                ehs.append((nm, rng.choice([b"text/html", b"application/problem+json", b"7", b"Basic realm=\"r\"", b""])))
+        if rng.random() < 0.45:
+            ehs.insert(rng.randrange(len(ehs) + 1), (rng.choice([b"Content-Length", b"content-length", b"CONTENT-LENGTH"]), rng.choice([b"0", b"1", b"5", b"17", b"100", b"4000"])))
+        err = (k, rng.choice(ERR_STATUS), rng.choice([b"", b"", b"Custom Reason", b"Raison \xe9trange"]), rng.choice(ERR_TEXT), rng.choice(ERR_TEXT),
+               rng.choice([None, None, 0, 7, 12345]), ehs)
+        app = (status, hs, clen, pieces, retval, rw, err)
+        e = app_err(app)
+        if e[0] == "cuts" and clen is not None:
+            # an app that declared a length and then fails short of it is outside the quantifier: keep the declaration only if it is reached
+            produced = len(expected_body(app))
+            app = (status, hs, rng.choice([None, produced, produced // 2]), pieces, retval, rw, err)
+        return app
+
     def generate(self, rng, n, tier):
+        for case in self._generate(rng, n, tier):
+            # framing headers given by the APP (inside the quantifier: Transfer-Encoding: chunked, any case, for an HTTP/1.1 request and no declared length)
+            # and apps that raise HTTPError; on the apps of every kind of case
+            def touch(reqs, apps):
+                for i, (r, a) in enumerate(zip(reqs, apps)):
+                    e = app_err(a)
+                    if r[0] == 1 and a[2] is None and not (len(a) > 5 and any(rs[2] is not None for rs in a[5][0])) and rng.random() < 0.14:
+                        hs = list(a[1])
+                        hs.insert(rng.randrange(len(hs) + 1), (rng.choice(TE_NAMES), rng.choice(TE_VALUES)))
+                        a = (a[0], hs) + tuple(a[2:])
+                    if rng.random() < 0.14:
+                        a = self._err(rng, a)
+                    apps[i] = a
+            if case[0] == "multi":
+                for conn in case[1]:
+                    touch(conn[0], conn[1])
+            elif case[0] == "loop":
+                touch(case[1][0], case[1][1])
+            else:
+                touch(case[0], case[1])
+            yield case
+
+    def _generate(self, rng, n, tier):
         for _ in range(n):
             m = rng.choice([1, 2, 2, 3, 3, 4, 6])
             reqs = []
@@ -165,6 +252,26 @@ class C18(core.Check):
                     conns[j] = (conns[j][0], conns[j][1], rng.randrange(1, max(2, total_j)))
                 yield ("multi", conns, rng.choice([0, 0, 1]))
                 continue
+            if rng.random() < 0.3:
+                # virtual TIME: every request arrives complete and alone in its own pass (also with its body), long idle gaps between the
+                # exchanges, a slow clock so that an app yielding empty pieces really stalls.  Before the first persistent request is parsed
+                # the connection is subject to the server's idle timeout (C12's matter): long gaps / stalls only from then on
+                first_persistent = hf.c18_persisted(reqs[0])
+                idles = [rng.choice([0, 0, 1, 2, 7, 60] if first_persistent else [0, 0, 1, 2]) for _ in reqs]
+                tock = rng.choice([0, 0, 1, 2])
+                if rng.random() < 0.5:
+                    j = rng.randrange(m)
+                    reqs[j] = (reqs[j][0], reqs[j][1], rng.choice([1, 5, 100, 3000]))
+                if tock:
+                    for j in range(m):
+                        a = apps[j]
+                        if j == 0 and not first_persistent:
+                            apps[j] = (a[0], a[1], a[2], [p for p in a[3] if p]) + tuple(a[4:])
+                        elif rng.random() < 0.5:
+                            k = rng.randrange(len(a[3]) + 1)
+                            apps[j] = (a[0], a[1], a[2], a[3][:k] + [b""] * rng.choice([3, 6, 9]) + a[3][k:]) + tuple(a[4:])
+                yield (reqs, apps, ("paced", idles, tock), quota if not tock else None)
+                continue
             sched = (cuts, gap) if rng.random() < 0.7 else (cuts, gap, rng.choice([1, 7, 16, 100, 8096]))
             if tier == "thorough" and rng.random() < 0.004:
                 yield ("loop", (reqs, apps, (cuts, gap), None))       # the same kind of case over real loopback sockets
@@ -173,7 +280,13 @@ class C18(core.Check):
 
     @staticmethod
     def _conn_req(reqs, apps):
-        return ([(v, CONN[c]) for v, c, _ in reqs], [(a[0], [(n, v) for n, v in a[1]], a[2], (list(a[5][1]) if len(a) > 5 else []) + list(a[3]), a[4] or b"") for a in apps])
+        def err(a):
+            if len(a) <= 6 or a[6] is None:
+                return None
+            k, st, reason, title, detail, fault, ehs = a[6]
+            return (0 if k < 0 else len(a[5][1]) + k, st, reason, title, detail, fault, [(n, v) for n, v in ehs])
+        return ([(v, CONN[c]) for v, c, _ in reqs],
+                [(a[0], [(n, v) for n, v in a[1]], a[2], (list(a[5][1]) if len(a) > 5 else []) + list(a[3]), a[4] or b"", err(a)) for a in apps])
 
     @staticmethod
     def _complete(reqs, eof_at, j):
@@ -237,6 +350,26 @@ class C18(core.Check):
             if p["delimited"] == "close" and stays_open:
                 bad.append("not-self-delimiting")
                 return bad          # everything behind it is swallowed by this body: nothing more can be judged
+            e = app_err(apps[i])
+            if e and e[0] == "replaces":
+                # the app failed with an HTTPError before a byte of its response left: the client gets the ERROR as a response of its own — the
+                # error's status and headers, text/plain unless it says otherwise, the rendered text as body, delimited by the server
+                _, est, ereason, etitle, edetail, efault, ehs = e[1]
+                if p["status"] != est or not p["reason"] or (ereason and p["reason"] != ereason.decode("latin-1").strip()):
+                    bad.append("status-differs")
+                got = [(k.lower(), v) for k, v in p["headers"]]
+                for name, value in ehs:
+                    if name.lower() != b"content-length" and (name.decode("latin-1").lower(), value.decode("latin-1").strip()) not in got:
+                        bad.append("header-lost")
+                        break
+                if not any(n.lower() == b"content-type" for n, _ in ehs) and ("content-type", "text/plain") not in got:
+                    bad.append("error-without-content-type")
+                text = b"%d %s\n%s\n%s\n%s" % (est, p["reason"].encode("latin-1") if not ereason else ereason, etitle, edetail, b"" if efault is None else b"%d" % efault)
+                if p["delimited"] == "close" or [v for k, v in got if k == "content-length"] != [str(len(text))]:
+                    bad.append("error-response-length-not-its-own")
+                if p["body"] != text:
+                    bad.append("body-differs")
+                continue
             if isinstance(status, int):        # the app gave only a code: the phrase is the server's
                 if p["status"] != status or not p["reason"]:
                     bad.append("status-differs")
@@ -246,7 +379,11 @@ class C18(core.Check):
                     bad.append("status-differs")
             got = [(k.lower(), v) for k, v in p["headers"]]
             for name, value in headers:
-                if (name.decode("latin-1").lower(), value.decode("latin-1")) not in got:
+                if name.lower() == b"transfer-encoding":
+                    # the app asks for chunked itself: the response must then BE chunked (the coding name is case-insensitive, RFC 7230 4)
+                    if p["delimited"] != "chunked":
+                        bad.append("announced-chunked-but-is-not")
+                elif (name.decode("latin-1").lower(), value.decode("latin-1")) not in got:
                     bad.append("header-lost")
                     break
             full = expected_body(apps[i])
@@ -267,7 +404,8 @@ class C18(core.Check):
         for i, r in enumerate(reqs):
             if not hf.c18_persisted(r):
                 return None
-            if r[0] == 0 and apps[i][2] is None:
+            e = app_err(apps[i])
+            if r[0] == 0 and apps[i][2] is None and not (e and e[0] == "replaces"):      # an error response always carries its length
                 return i
         return None
 
@@ -285,12 +423,14 @@ class C18(core.Check):
 
     def _features1(self, case, obs):
         reqs, apps, quota = case[0], case[1], case[3]
-        cuts, gap = case[2][0], case[2][1]
+        paced = case[2][0] == "paced"
+        cuts, gap = ([], 1) if paced else (case[2][0], case[2][1])
         f = [f"reqs={min(len(reqs), 5)}", f"answered={min(obs[2], 5)}", "closed" if obs[1] else "open",
              "quota" if quota else "noquota", f"gap={gap}", "fragmented" if cuts else "whole"]
         for i in range(obs[2]):
             r, a = reqs[i], apps[i]
-            kind = ("len" if a[2] is not None else ("chunked" if r[0] == 1 else "bare")) + ("/1.%d" % r[0])
+            e = app_err(a)
+            kind = ("error" if e and e[0] == "replaces" else ("len" if a[2] is not None else ("chunked" if r[0] == 1 else "bare"))) + ("/1.%d" % r[0])
             f.append("resp:" + kind)
             if a[2] is not None and a[2] < len(expected_body(a)):
                 f.append("resp:clamped")
@@ -302,16 +442,27 @@ class C18(core.Check):
 
     def _shrink1(self, case):
         reqs, apps, quota = case[0], case[1], case[3]
-        cuts, gap = case[2][0], case[2][1]
+        sched = case[2]
+        cuts, gap = ([], 1) if sched[0] == "paced" else (sched[0], sched[1])
+        if sched[0] == "paced":
+            yield (reqs, apps, ("paced", [0] * len(reqs), 0), quota)
         if cuts or quota is not None or gap != 1:
             yield (reqs, apps, ([], 1), None)
         for i in range(len(reqs)):
             if len(reqs) > 1:
-                yield (reqs[:i] + reqs[i + 1:], apps[:i] + apps[i + 1:], ([], gap), quota)
+                yield (reqs[:i] + reqs[i + 1:], apps[:i] + apps[i + 1:], ("paced", (sched[1][:i] + sched[1][i + 1:]), sched[2]) if sched[0] == "paced" else ([], gap), quota)
         for i, app in enumerate(apps):
             st, hs, cl, ps, rv = app[:5]
             def put(a, extra=app[5:]):
-                return (reqs, apps[:i] + [tuple(a) + tuple(extra)] + apps[i + 1:], (cuts, gap), quota)
+                return (reqs, apps[:i] + [tuple(a) + tuple(extra)] + apps[i + 1:], sched, quota)
+            if len(app) > 6 and app[6] is not None:
+                yield put((st, hs, cl, ps, rv), (app[5],))
+                k, est, er, et, ed, ef, eh = app[6]
+                for j in range(len(eh)):
+                    yield put((st, hs, cl, ps, rv), (app[5], (k, est, er, et, ed, ef, eh[:j] + eh[j + 1:])))
+                if et or ed or ef is not None or er:
+                    yield put((st, hs, cl, ps, rv), (app[5], (k, est, b"", b"", b"", None, eh)))
+                continue
             if len(app) > 5:
                 yield put((st, hs, cl, ps, rv), ())
                 rs, wr = app[5]
@@ -319,8 +470,8 @@ class C18(core.Check):
                     yield put((st, hs, cl, ps, rv), ((rs[:j] + rs[j + 1:], wr),))
                 for j in range(len(wr)):
                     yield put((st, hs, cl, ps, rv), ((rs, wr[:j] + wr[j + 1:]),))
-            if hs:
-                yield put((st, hs[:-1], cl, ps, rv))
+            for j in range(len(hs)):
+                yield put((st, hs[:j] + hs[j + 1:], cl, ps, rv))
             if rv:
                 yield put((st, hs, cl, ps, None))
             for j in range(len(ps)):
@@ -330,7 +481,7 @@ class C18(core.Check):
                     yield put((st, hs, cl if cl is None else min(cl, len(b"".join(ps)) - len(p) + 2), ps[:j] + [p[:2]] + ps[j + 1:], rv))
         for i, (v, c, b) in enumerate(reqs):
             if b is not None:
-                yield (reqs[:i] + [(v, c, None)] + reqs[i + 1:], apps, (cuts, gap), quota)
+                yield (reqs[:i] + [(v, c, None)] + reqs[i + 1:], apps, sched, quota)
 
     def mutate(self, rng, case):
         return list(self.shrink(case))[:40]
@@ -388,10 +539,35 @@ class C18(core.Check):
             return ["real-loopback-sockets"] + self._features1(case[1], obs)
         if case[0] != "multi":
             f = self._features1(case, obs)
-            if len(case[2]) > 2:
+            if case[2][0] == "paced":
+                f.append("paced:one-request-per-pass")
+                if any(g >= 5 for g in case[2][1]):
+                    f.append("paced:idle-longer-than-tymeout")
+                if case[2][2]:
+                    f.append("paced:slow-clock")
+                    if any(b"" in a[3] for a in case[1]):
+                        f.append("paced:app-stalls-while-time-passes")
+                if any(r[2] for r in case[0]):
+                    f.append("paced:request-body-complete-and-alone")
+            elif len(case[2]) > 2:
                 f.append(f"bs={case[2][2]}")
             if any(isinstance(a[0], int) for a in case[1]):
                 f.append("status:int")
+            for r, a in zip(case[0], case[1]):
+                e = app_err(a)
+                if e:
+                    f.append("app:raises-HTTPError:" + ("before-any-byte" if e[0] == "replaces" else "after-the-head"))
+                    if e[0] == "replaces":
+                        if a[6][0] < 0:
+                            f.append("app:raises-before-start_response")
+                        if any(n.lower() == b"content-length" for n, _ in a[6][6]):
+                            f.append("error-carries-content-length")
+                        if a[6][0] > 0:
+                            f.append("app:raises-after-empty-items")
+                        if not a[6][2]:
+                            f.append("error-reason-from-table" if a[6][1] in (400, 401, 404, 409, 500, 503) else "error-reason-unknown-status")
+                if any(n.lower() == b"transfer-encoding" for n, _ in a[1]):
+                    f.append("app:lists-transfer-encoding-chunked" + ("" if any(v == b"chunked" for n, v in a[1] if n.lower() == b"transfer-encoding") else ":other-case"))
             for a in case[1]:
                 if len(a) > 5:
                     if a[5][0]:
